@@ -288,6 +288,12 @@ func (m *Model) updateSubscription(p *MPeriod, s *MSub, payload string, event in
 	m.deliver(s, payload, event, why, async)
 }
 
+// heartbeatDue tells whether updater.Heartbeat() sends a heartbeat to s: it asked for them, is not
+// removed, its client is there, and it had no successful data write within the interval (1 h).
+func (m *Model) heartbeatDue(s *MSub) bool {
+	return s.Live && s.HB && !s.DataFlushed && !s.ClientGone
+}
+
 // ---- the start goroutine of a trigger -------------------------------------------------------
 
 func (m *Model) startHooks(p *MPeriod, why string) string {
@@ -541,7 +547,11 @@ func (m *Model) Begin(st Step, reached bool) {
 		sort.Ints(rcpt)
 		for _, i := range rcpt {
 			s := m.Subs[i]
-			if !s.HB || s.DataFlushed || s.ClientGone {
+			if !m.heartbeatDue(s) {
+				continue
+			}
+			if splitAt(st, reached, PtHeartbeat, PtWHeartbeat) && st.Split.Target == i {
+				m.deferredSub = i
 				continue
 			}
 			s.Exp = append(s.Exp, ExpItem{Item: Item{Kind: CHeartbeat}, Optional: !s.HBFail, Why: why})
@@ -634,6 +644,20 @@ func (m *Model) End(st Step, reached bool) {
 				m.see("update-parked-while-subscriber-removed")
 			}
 		}
+	case OpHeartbeat:
+		if m.deferredSub >= 0 {
+			s := m.Subs[m.deferredSub]
+			if s.Live {
+				s.Exp = append(s.Exp, ExpItem{Item: Item{Kind: CHeartbeat}, Optional: !s.HBFail, Why: why})
+				m.see("heartbeat-expected")
+				if s.HBFail {
+					m.see("heartbeat-failure-removes-subscriber")
+					m.removeSub(s, why+" (heartbeat failure)", false)
+				}
+			} else {
+				m.see("heartbeat-parked-while-subscriber-removed")
+			}
+		}
 	case OpComplete, OpError:
 		if m.deferredSub >= 0 {
 			s := m.Subs[m.deferredSub]
@@ -661,16 +685,26 @@ func (m *Model) PredictReach(st Step) bool {
 	case PtStart:
 		return st.Op == OpSubscribe && !m.Shutdown && m.LivePeriod(st.Key) == nil
 	case PtInit:
-		if st.Op != OpSubscribe || m.Shutdown || m.LivePeriod(st.Key) != nil || st.Hook == HookFail || st.StartMode != StartOK {
+		// the yield sits at the top of markTriggerInitialized: the start goroutine gets there
+		// whenever the hooks succeeded and Start returned nil, also when the trigger is gone
+		return st.Op == OpSubscribe && !m.Shutdown && m.LivePeriod(st.Key) == nil && st.Hook != HookFail && st.StartMode == StartOK
+	case PtHeartbeat, PtWHeartbeat:
+		if st.Op != OpHeartbeat {
 			return false
 		}
-		// the start goroutine gets to markTriggerInitialized's window iff the trigger is still
-		// registered when Start has returned (the creator's own hook message may have removed it)
-		c := m.Clone()
-		u := st
-		u.Split = nil
-		c.Begin(u, false)
-		return c.Periods[len(c.Periods)-1].Initialized
+		p := m.Periods[st.Period]
+		x := m.Subs[st.Split.Target]
+		if !p.Live || x.Period != p.Idx || !m.heartbeatDue(x) {
+			return false
+		}
+		// heartbeats go out one subscriber after the other in map order: another subscriber whose
+		// Heartbeat fails would be removed before or after the park, unknown which
+		for _, i := range p.Subs {
+			if y := m.Subs[i]; i != x.Idx && y.HBFail && m.heartbeatDue(y) {
+				return false
+			}
+		}
+		return true
 	case PtComplete, PtError, PtWComplete, PtWError:
 		p := m.Periods[st.Period]
 		s := m.Subs[st.Split.Target]
@@ -712,7 +746,7 @@ func HoldsUpdater(st Step) bool {
 		return false
 	}
 	switch st.Split.Point {
-	case PtUpdate, PtComplete, PtError, PtWFlush, PtWComplete, PtWError:
+	case PtUpdate, PtComplete, PtError, PtHeartbeat, PtWFlush, PtWComplete, PtWError, PtWHeartbeat:
 		return true
 	}
 	return false
